@@ -1,97 +1,287 @@
 (* C10 — Categorical sensors are mapped onto dumps by the documented rule.  Only statements here.
 
-   Model.SensorToCat: `per_dump` = data[:] of the CategoricalData returned by the model of sensor_to_categorical
-   (searchsorted against dump end times with the extra prior dump, clipping, transform, initial value incl. the
-   repaired F7 branch, events[0] := 0, the index-based generator with the in-place events[i] += 1, indexing by
-   cleaned_up, repeat removal, unique_in_order / _lookup).  `spec_per_dump` = the documented rule over TIMES,
-   recursion free: dump k covers (end_{k-1}, end_k]; its value is `pick` (latest greedy, else last) of
-   [value of the last event at or before end_{k-1}, or else the start value] ++ [values of the events inside];
-   start value = initial value, else first event at or before the last dump end.  The transform is applied to the
-   values before anything else on both sides (greedy membership and repeat removal see transformed values only).
+   WHAT THE THEOREMS ARE ABOUT.  Model.SensorToCatSrc: `per_dump_src ts vals mids P tr init greedy ar` = data[:] of the
+   CategoricalData returned by the model of sensor_to_categorical(ts, vals, mids, P, transform, initial_value,
+   greedy_values, allow_repeats).  That model is written over the definitions REGENERATED FROM THE SOURCE at every
+   run (Gen/Generated.v `c10_*`: searchsorted sides, the -1 / 0 / +1 constants, every comparison of
+   _single_event_per_dump, the initial-value condition, the repeat-removal condition, the default allow_repeats, the
+   0.5 of the dump end times, the _lookup bounds) inside a statement skeleton the translator fixes
+   (transform -> initial value -> events[0] = 0 -> greedy flags -> terminator -> generator -> repeat removal).
+   `rule ts vals mids P tr init greedy` = the documented rule over TIMES, recursion free (Model.SensorToCat
+   spec_per_dump): dump k covers (end_{k-1}, end_k], end_k = mid_k + P/2; its value is `pick` (latest greedy, else
+   last) of [value of the last event at or before end_{k-1}, or else the start value] ++ [values of the events
+   inside]; start value = initial value, else first event at or before the last dump end; Err when no start value
+   exists (or there is no dump).  Values are transformed before anything else on both sides.
+   `c10_domain ts vals mids P` = at least one dump, mid times strictly increase, 0 < P, timestamps non-decreasing
+   (SensorCache sorts them: C10_cache_path in Props/C10.v discharges this hypothesis for the public path), as many
+   values as timestamps.
 
-   FULL statement of the property = C10_per_dump_partial WITHOUT its guard; it is refuted for the code as it is by
-   C10_greedy_initial_refuted (finding F14), and C10_per_dump_as_coded says exactly what the code does instead for
-   EVERY input (the rule with the initial value dropped in the F14 situation).  The guard `c10_guard` excludes
-   "initial value given, no event at or before the start of dump 0, an event inside dump 0"; F14 is the sub-case
-   where that initial value is greedy (for a non-greedy one code and rule agree, which is only checked by the
-   correspondence, not proved). *)
+   THE PROPERTY = C10_per_dump_exact: code = rule EXACTLY when `f14_differs = false`; F14 (open finding) is its
+   complement, shown non-empty by C10_greedy_initial_refuted, and confined to dump 0 by C10_later_dumps_always. *)
 From Coq Require Import ZArith List Bool.
-From KV Require Import Base.Sx Model.SensorToCat Proofs.SensorToCatP.
+From KV Require Import Base.Sx Gen.Generated Model.SensorToCat Model.SensorToCatSrc Model.SensorToCatPath
+  Model.SensorToCatTables Proofs.SensorToCatTablesP Proofs.SensorToCatMoreP Model.SensorToCatValues
+  Proofs.SensorToCatValuesP
+  Proofs.SensorToCatP Proofs.SensorToCatInitP Proofs.SensorToCatLawsP Proofs.SensorToCatSrcP Proofs.SensorToCatTopP
+  Proofs.SensorToCatPathP.
 Import ListNotations.
 Open Scope Z_scope.
 
-(* ---- the generator, index-based model (nth / upd, events[i] += 1), all inputs ----
-   For EVERY list l of (dump, value) events after a first event (0, v0), dumps non-decreasing and below N, and every
-   greedy predicate, the events selected by `single_event_per_dump`, read as (value, mutated dump) pairs:
-   (1) the value in force at each dump k in [0, N) is pick (carried value ++ values of the events inside dump k);
-   (2) they lie in [0, N), their dumps strictly increase and the first one is at dump 0. *)
+(* ================= clause: "assigns every dump exactly one value: the latest greedy value ... otherwise the value in
+   effect at the end of the dump, where the last event before the first dump (or else the initial value, or else
+   the first event) defines the value at the start and events after the last dump are ignored" ================= *)
+
+(* EVERY input of the domain: what the code computes is the rule with the initial value as the code treats it
+   (dropped when no event lies at or before the start of dump 0 but one lies inside dump 0); Err exactly when the
+   rule defines no start value. *)
+Theorem C10_per_dump_as_coded : forall ts vals mids P tr init greedy ar, c10_domain ts vals mids P ->
+  per_dump_src ts vals mids P tr init greedy ar =
+  rule ts vals mids P tr (init_as_coded ts (dump_ends mids P) P init) greedy.
+Proof. exact per_dump_src_coded. Qed.
+Print Assumptions C10_per_dump_as_coded.
+
+(* THE property, with the exact boundary of finding F14: the code obeys the rule iff the initial value it drops would
+   not have won dump 0; and when it does not, ONLY dump 0 is wrong. *)
+Theorem C10_per_dump_exact : forall ts vals mids P tr init greedy ar, c10_domain ts vals mids P ->
+  (f14_differs ts vals (dump_ends mids P) P tr init greedy = false ->
+     per_dump_src ts vals mids P tr init greedy ar = rule ts vals mids P tr init greedy) /\
+  (f14_differs ts vals (dump_ends mids P) P tr init greedy = true ->
+     exists x y T, x <> y /\ per_dump_src ts vals mids P tr init greedy ar = Ok (x :: T) /\
+                   rule ts vals mids P tr init greedy = Ok (y :: T)).
+Proof. exact per_dump_src_exact. Qed.
+Print Assumptions C10_per_dump_exact.
+
+(* the property statement itself under the guard that is exactly the F14 situation: an initial value that is GREEDY,
+   no event at or before the start of dump 0, an event inside dump 0.  (A plain initial value is covered.) *)
+Theorem C10_per_dump_partial : forall ts vals mids P tr init greedy ar, c10_domain ts vals mids P ->
+  f14_situation ts (dump_ends mids P) P init greedy = false ->
+  per_dump_src ts vals mids P tr init greedy ar = rule ts vals mids P tr init greedy.
+Proof. exact per_dump_src_unless_f14. Qed.
+Print Assumptions C10_per_dump_partial.
+
+(* F14: without the guard the statement fails for the code as it is (witness evaluated by vm_compute). *)
+Theorem C10_greedy_initial_refuted :
+  exists ts vals mids P init greedy,
+    c10_domain ts vals mids P /\
+    f14_differs ts vals (dump_ends mids P) P None (Some init) greedy = true /\
+    per_dump_src ts vals mids P None (Some init) greedy None = Ok [1; 2; 2] /\
+    rule ts vals mids P None (Some init) greedy = Ok [3; 2; 2].
+Proof. exact f14_refuted_src. Qed.
+Print Assumptions C10_greedy_initial_refuted.
+
+(* dumps 1 .. N-1 obey the rule for EVERY input of the domain (F14 or not), and there is one value per dump *)
+Theorem C10_later_dumps_always : forall ts vals mids P tr init greedy ar, c10_domain ts vals mids P ->
+  match per_dump_src ts vals mids P tr init greedy ar, rule ts vals mids P tr init greedy with
+  | Ok l, Ok s => tl l = tl s /\ length l = length mids
+  | Err, Err => True
+  | _, _ => False
+  end.
+Proof. exact per_dump_src_later_dumps. Qed.
+Print Assumptions C10_later_dumps_always.
+
+Theorem C10_one_value_per_dump : forall ts vals mids P tr init greedy ar l, c10_domain ts vals mids P ->
+  per_dump_src ts vals mids P tr init greedy ar = Ok l -> length l = length mids.
+Proof. exact src_one_value_per_dump. Qed.
+Print Assumptions C10_one_value_per_dump.
+
+(* "the last event before the first dump defines the value at the start": such an event makes the initial value
+   irrelevant (nothing changes when it is supplied, changed or omitted) *)
+Theorem C10_prior_event_overrides_initial : forall ts vals mids P tr i greedy ar, c10_domain ts vals mids P ->
+  no_prior ts (hd 0 (dump_ends mids P) - P) = false ->
+  per_dump_src ts vals mids P tr (Some i) greedy ar = per_dump_src ts vals mids P tr None greedy ar.
+Proof. exact src_prior_overrides_initial. Qed.
+Print Assumptions C10_prior_event_overrides_initial.
+
+(* "events after the last dump are ignored": appending any events later than the last dump end changes nothing *)
+Theorem C10_late_events_ignored : forall ts vals lts lvals mids P tr init greedy ar,
+  c10_domain (ts ++ lts) (vals ++ lvals) mids P -> length ts = length vals ->
+  Forall (fun t => last (dump_ends mids P) 0 < t) lts ->
+  per_dump_src (ts ++ lts) (vals ++ lvals) mids P tr init greedy ar = per_dump_src ts vals mids P tr init greedy ar.
+Proof. exact src_late_events_ignored. Qed.
+Print Assumptions C10_late_events_ignored.
+
+(* "otherwise the value in effect at the end of the dump": with no greedy values every dump takes the value of the
+   last event at or before its END (or the start value) *)
+Theorem C10_no_greedy_value_at_end : forall ts vals mids P tr init ar, c10_domain ts vals mids P ->
+  per_dump_src ts vals mids P tr init [] ar =
+  let tv := combine ts (map (app_tr tr) vals) in
+  match start_value tv init (last (dump_ends mids P) 0) with
+  | Some st => Ok (map (value_at_end tv st) (dump_ends mids P))
+  | None => Err
+  end.
+Proof. exact src_no_greedy_value_at_end. Qed.
+Print Assumptions C10_no_greedy_value_at_end.
+
+(* nothing foreign can appear: every per-dump value is the initial value or a (transformed) sensor value *)
+Theorem C10_values_closed : forall ts vals mids P tr init greedy ar l, c10_domain ts vals mids P ->
+  per_dump_src ts vals mids P tr init greedy ar = Ok l ->
+  Forall (fun v => In v (olist init ++ map (app_tr tr) vals)) l.
+Proof. exact src_values_closed. Qed.
+Print Assumptions C10_values_closed.
+
+(* only relative times matter: shifting sensor timestamps AND dump mid times by the same amount changes nothing *)
+Theorem C10_time_shift : forall c ts vals mids P tr init greedy ar, c10_domain ts vals mids P ->
+  per_dump_src (shiftZ c ts) vals (shiftZ c mids) P tr init greedy ar = per_dump_src ts vals mids P tr init greedy ar.
+Proof. exact src_time_shift. Qed.
+Print Assumptions C10_time_shift.
+
+(* searchsorted layer, with the side the code uses: an event at time t lands in dump k iff end_{k-1} < t <= end_k *)
+Theorem C10_searchsorted_dump : forall a, ssorted a -> forall k lo hi,
+  nth_error (combine a (tl a)) k = Some (lo, hi) -> forall t,
+  ((lo <? t) && (t <=? hi) = Nat.eqb (ss_side c10_events_side_right a t) (S k)) /\
+  ((t <=? lo) = Nat.leb (ss_side c10_events_side_right a t) k).
+Proof. exact ss_pairs_src. Qed.
+Print Assumptions C10_searchsorted_dump.
+
+(* the generator (index-based model over the regenerated comparisons, nth / upd, events[i] += push), ALL inputs:
+   for every list l of (dump, value) events after a first event (0, v0), dumps non-decreasing and below N, every greedy
+   predicate, the selected events read as (value, mutated dump) pairs expand to the per-dump rule, lie in [0, N),
+   strictly increase and start at dump 0 *)
 Theorem C10_generator_per_dump : forall (isg : Z -> bool) (v0 : Z) (l : list (Z * Z)) (N : Z),
   nondecr 0 l -> Forall (fun e => fst e < N) ((0, v0) :: l) ->
   let evt := 0 :: map fst l ++ [N] in
   let vals := v0 :: map snd l in
-  let ce := single_event_per_dump evt (map isg vals) in
+  let ce := single_event_per_dump_src evt (map isg vals) in
   let out := map (fun i => (nth i vals 0, nth i (snd ce) 0)) (fst ce) in
   (forall k, 0 <= k < N -> lookupd 0 out k = ivalue isg ((0, v0) :: l) k) /\
   Forall (fun e => 0 <= snd e < N) out /\ ssorted (map snd out) /\ exists v t, out = (v, 0) :: t.
-Proof. exact generator_rule. Qed.
+Proof. exact generator_rule_src. Qed.
 Print Assumptions C10_generator_per_dump.
 
-(* ---- searchsorted layer: an event at time t lands in dump k iff end_{k-1} < t <= end_k ----
-   a = the dump end times preceded by the extra prior dump (strictly increasing), (lo, hi) its k-th pair of
-   neighbours: lo < t <= hi iff searchsorted(a, t) = k + 1, and t <= lo iff searchsorted(a, t) <= k. *)
-Theorem C10_searchsorted_dump : forall a, ssorted a -> forall k lo hi,
-  nth_error (combine a (tl a)) k = Some (lo, hi) -> forall t,
-  ((lo <? t) && (t <=? hi) = Nat.eqb (ss_left a t) (S k)) /\ ((t <=? lo) = Nat.leb (ss_left a t) k).
-Proof. exact ss_pairs. Qed.
-Print Assumptions C10_searchsorted_dump.
-
-(* ---- the whole function, EVERY input: what the code computes is the rule with `init_as_coded` ----
-   and (C10_wellformed) events start at 0, strictly increase, end at N, one more event than values, and no two
-   consecutive values are equal unless allow_repeats. *)
-Theorem C10_per_dump_as_coded : forall ts vals e0 er P tr init greedy ar,
-  let ends := e0 :: er in
-  ssorted ends -> 0 < P -> time_sorted ts -> length ts = length vals ->
-  per_dump ts vals ends P tr init greedy ar =
-    match spec_per_dump ts vals ends P tr (init_as_coded ts ends P init) greedy with
-    | Some l => Ok l | None => Err end.
-Proof. intros. apply per_dump_coded; assumption. Qed.
-Print Assumptions C10_per_dump_as_coded.
-
-Theorem C10_wellformed : forall ts vals e0 er P tr init greedy ar v e,
-  let ends := e0 :: er in
-  ssorted ends -> 0 < P -> time_sorted ts -> length ts = length vals ->
-  s2c ts vals ends P tr init greedy ar = Ok (v, e) ->
-  (exists t, e = 0 :: t) /\ ssorted e /\ last e 0 = Z.of_nat (length ends) /\ length e = S (length v) /\
-  (ar = false -> norep v).
-Proof.
-  intros ts vals e0 er P tr init greedy ar v e ends H1 H2 H3 H4 H5.
-  exact (proj2 (per_dump_coded ts vals e0 er P tr init greedy ar H1 H2 H3 H4) v e H5).
-Qed.
+(* ================= clause: "always covers dumps 0..N-1 with strictly increasing event boundaries ... and contains no
+   repeated consecutive values unless repeats are allowed" ================= *)
+Theorem C10_wellformed : forall ts vals mids P tr init greedy ar v e, c10_domain ts vals mids P ->
+  s2c_src ts vals (ends_of_mids mids P) P tr init greedy (allow_repeats_of ar) = Ok (v, e) ->
+  (exists t, e = 0 :: t) /\ ssorted e /\ last e 0 = Z.of_nat (length mids) /\ length e = S (length v) /\
+  (allow_repeats_of ar = false -> norep v).
+Proof. exact wellformed_src. Qed.
 Print Assumptions C10_wellformed.
 
-(* ---- THE theorem under the guard that excludes the F14 situation ---- *)
-Theorem C10_per_dump_partial : forall ts vals e0 er P tr init greedy ar,
-  let ends := e0 :: er in
-  ssorted ends -> 0 < P -> time_sorted ts -> length ts = length vals ->
-  c10_guard ts ends P init = true ->
-  per_dump ts vals ends P tr init greedy ar =
-    match spec_per_dump ts vals ends P tr init greedy with Some l => Ok l | None => Err end.
-Proof. exact per_dump_guarded. Qed.
-Print Assumptions C10_per_dump_partial.
+(* allow_repeats (default: the regenerated default = False) changes the events, never the per-dump values *)
+Theorem C10_allow_repeats_same_values : forall ts vals mids P tr init greedy ar ar', c10_domain ts vals mids P ->
+  per_dump_src ts vals mids P tr init greedy ar = per_dump_src ts vals mids P tr init greedy ar'.
+Proof. exact src_allow_repeats_same_values. Qed.
+Print Assumptions C10_allow_repeats_same_values.
 
-(* hypotheses and guard are satisfiable; prior event, greedy value inside a dump, edge event, late event *)
-Theorem C10_per_dump_example :
-  let ts := [-5; 1; 2; 4; 9] in let vals := [2; 3; 1; 4; 2] in let ends := [0; 2; 4] in
-  ssorted ends /\ time_sorted ts /\ c10_guard ts ends 2 (Some 5) = true /\
-  per_dump ts vals ends 2 None (Some 5) [3] false = Ok [2; 3; 4] /\
-  spec_per_dump ts vals ends 2 None (Some 5) [3] = Some [2; 3; 4].
-Proof. exact per_dump_guard_example. Qed.
-Print Assumptions C10_per_dump_example.
+(* ================= clause: "applies the optional transform before any comparison" =================
+   EVERY input (no hypothesis): transforming inside is the same as handing over transformed values with no transform,
+   for the per-dump values AND for the events / values handed to CategoricalData (so greedy membership, the
+   initial-value decision and repeat removal only ever see transformed values) *)
+Theorem C10_transform_first : forall ts vals mids P m init greedy ar,
+  per_dump_src ts vals mids P (Some m) init greedy ar = per_dump_src ts (map (apply_map m) vals) mids P None init greedy ar /\
+  s2c_src ts vals (ends_of_mids mids P) P (Some m) init greedy (allow_repeats_of ar) =
+  s2c_src ts (map (apply_map m) vals) (ends_of_mids mids P) P None init greedy (allow_repeats_of ar).
+Proof. exact src_transform_first. Qed.
+Print Assumptions C10_transform_first.
 
-(* F14: without the guard the full statement fails for the code as it is. *)
-Theorem C10_greedy_initial_refuted :
-  exists ts vals ends P init greedy,
-    per_dump ts vals ends P None (Some init) greedy false = Ok [1; 2; 2] /\
-    spec_per_dump ts vals ends P None (Some init) greedy = Some [3; 2; 2].
-Proof. exact greedy_initial_refuted. Qed.
-Print Assumptions C10_greedy_initial_refuted.
+(* ================= the public path: SensorCache.get -> _extract -> sensor_to_categorical ================= *)
+(* EVERY raw sample list (unsorted, duplicate timestamps, unreadable statuses, empty), every time offset: the
+   categorical extraction obeys the rule over the cleaned samples (C12's clean-up: stable sort, last of equal
+   timestamps, readable status), a sensor without usable samples is replaced by ONE dummy sample at time 0 carrying
+   the initial value (or the default of its type).  No sortedness hypothesis is left. *)
+Theorem C10_cache_path : forall raw has_status off dflt mids P tr init greedy ar,
+  mids <> [] -> ssorted mids -> 0 < P ->
+  let s := usable_samples raw has_status off init dflt in
+  extract_per_dump_src raw has_status off dflt mids P tr init greedy ar =
+  rule (map fst s) (map snd s) mids P tr (init_as_coded (map fst s) (dump_ends mids P) P init) greedy
+  /\ c10_domain (map fst s) (map snd s) mids P.
+Proof. exact extract_cat_rule. Qed.
+Print Assumptions C10_cache_path.
+
+(* a sensor without usable samples: ONE dummy sample at time 0 carrying the initial value, else the type's default;
+   the default time offset is 0 *)
+Theorem C10_dummy_sample : forall raw has_status off init dflt,
+  (match raw with [] => [] | _ => clean_r has_status (shift_r (match off with Some o => o | None => 0 end) raw) end) = [] ->
+  usable_samples raw has_status off init dflt = [(0, match init with Some i => i | None => dflt end)].
+Proof. exact usable_dummy. Qed.
+Print Assumptions C10_dummy_sample.
+
+(* cache[name] = get(name, select=True): a boolean keep mask with one entry per dump selects exactly the masked
+   per-dump values, slice(None) all of them *)
+Theorem C10_select_mask : forall c (l : list Z) mask,
+  cat_all_src c = Ok l -> Z.of_nat (List.length mask) = last (cevents c) 0 ->
+  cat_select_src c (Some mask) = Ok (select_mask mask l) /\ cat_select_src c None = Ok l.
+Proof. exact select_is_mask. Qed.
+Print Assumptions C10_select_mask.
+
+(* the categorical / numerical decision of _extract: an explicit `categorical` property wins, otherwise every
+   non-float sensor is categorical *)
+Theorem C10_categorical_decision : forall (p : option bool) (is_float : bool),
+  decide_categorical_src p is_float = spec_categorical p is_float.
+Proof. exact decide_categorical_eq. Qed.
+Print Assumptions C10_categorical_decision.
+
+(* ================= value equality of array-valued (wrapped) sensors =================
+   The ids of the theorems above stand for sensor values; for array-valued sensors the code compares values with
+   ComparableArrayWrapper.__eq__ (model `caw_eq_src` over the regenerated branch condition; np.array_equal fixed by the
+   translator skeleton).  A value is (kind, shape, flat data). *)
+
+(* equal array values have the SAME SHAPE and the same elements (a broadcasting comparison would break exactly this:
+   repeat removal would drop a genuine change of value) *)
+Theorem C10_equal_arrays_same_shape : forall a b, is_nd a || is_nd b = true -> caw_eq_src a b = true ->
+  arr_shape a = arr_shape b /\ wdata a = wdata b /\ nan_free a = true.
+Proof. exact caw_eq_arrays. Qed.
+Print Assumptions C10_equal_arrays_same_shape.
+
+(* for NaN-free values of one sensor (no tuple next to a list) the code's equality IS "same shape, same elements" *)
+Theorem C10_value_equality_exact : forall a b, compatible a b = true -> nan_free a = true ->
+  caw_eq_src a b = arr_eqb a b.
+Proof. exact caw_eq_is_arr_eqb. Qed.
+Print Assumptions C10_value_equality_exact.
+
+(* the ids are the quotient of the values by that equality: same id iff same shape and same elements *)
+Theorem C10_value_ids_faithful : forall (u : list wv),
+  (forall x, In x u -> nan_free x = true) -> (forall x y, In x u -> In y u -> compatible x y = true) ->
+  forall x y i j, In x u -> In y u ->
+  (id_in caw_eq_src u i x = id_in caw_eq_src u j y <-> arr_shape x = arr_shape y /\ wdata x = wdata y).
+Proof. exact value_ids_faithful. Qed.
+Print Assumptions C10_value_ids_faithful.
+
+(* a value containing NaN is equal to nothing, not even to itself (hence never a "repeat": open finding F111) *)
+Theorem C10_nan_values_never_equal : forall a b, nan_free a = false -> caw_eq_src a b = false.
+Proof. exact caw_eq_nan. Qed.
+Print Assumptions C10_nan_values_never_equal.
+Definition C10_example_value_equality := ex_value_equality.
+Definition C10_example_shape_change := ex_shape_change_is_not_a_repeat.
+
+(* ================= the sensor property tables of the formats (regenerated from dataset.py, h5datav1/2/3.py,
+   visdatav4.py) =================
+   sensor_to_categorical compares `initial_value` and `greedy_values` with TRANSFORMED values (and inserts the initial
+   value among them), so every table entry must give them in the range of its transform; an entry that does not
+   (finding F110, repaired: the noise-diode sensors had the raw values '0' / 0.0 for a transform yielding booleans)
+   makes numpy promote the transformed array and defeats greedy membership. *)
+Theorem C10_tables_transformed : Forall (fun t => offending t = []) c10_all_tables.
+Proof. exact tables_transformed. Qed.
+Print Assumptions C10_tables_transformed.
+Definition C10_example_tables := offending_example.
+
+(* ================= non-vacuity: hypotheses satisfiable, statements discriminate (all by vm_compute) =================
+   one Example per theorem lives next to its lemma (Proofs/SensorToCatTopP.v and Proofs/SensorToCatPathP.v, names ex_...) *)
+Theorem C10_examples :
+  c10_domain [-5; 1; 2; 4; 9] [2; 3; 1; 4; 2] [-1; 1; 3] 2 /\
+  (per_dump_src [-5; 1; 2; 4; 9] [2; 3; 1; 4; 2] [-1; 1; 3] 2 None (Some 5) [3] None = Ok [2; 3; 4] /\
+   rule [-5; 1; 2; 4; 9] [2; 3; 1; 4; 2] [-1; 1; 3] 2 None (Some 5) [3] = Ok [2; 3; 4] /\
+   f14_situation [-5; 1; 2; 4; 9] (dump_ends [-1; 1; 3] 2) 2 (Some 5) [3] = false) /\
+  (c10_domain [-1; 2] [1; 2] [-1; 1; 3] 2 /\
+   f14_situation [-1; 2] (dump_ends [-1; 1; 3] 2) 2 (Some 5) [3] = false /\
+   per_dump_src [-1; 2] [1; 2] [-1; 1; 3] 2 None (Some 5) [3] None = Ok [1; 2; 2] /\
+   rule [-1; 2] [1; 2] [-1; 1; 3] 2 None (Some 5) [3] = Ok [1; 2; 2]).
+Proof. exact (conj ex_domain (conj ex_rule ex_plain_initial)). Qed.
+Print Assumptions C10_examples.
+
+Definition C10_example_f14_harmless := ex_f14_situation_harmless.
+Definition C10_example_generator := ex_generator.
+Definition C10_example_searchsorted := ex_searchsorted.
+Definition C10_example_wellformed := ex_wellformed.
+Definition C10_example_transform_first := ex_transform_first.
+Definition C10_example_prior_overrides := ex_prior_overrides.
+Definition C10_example_late_ignored := ex_late_ignored.
+Definition C10_example_no_greedy := ex_no_greedy.
+Definition C10_example_errors := ex_errors.
+Definition C10_example_cache_path := ex_usable.
+Definition C10_example_dummy := ex_dummy.
+Definition C10_example_decision := ex_decision.
+Definition C10_example_select := ex_select.
+Definition C10_example_time_shift := ex_time_shift.
+Definition C10_example_values_closed := ex_values_closed.
+Print Assumptions C10_example_cache_path.
